@@ -1573,6 +1573,13 @@ func (db *DB) buildTxFrameOffsets(walFile *os.File) (_ map[uint32]int64, commit,
 			return nil, 0, 0, 0, 0, errNoTransaction
 		}
 
+		// A frame for page zero is never valid: it ends the valid prefix.
+		pgno := binary.BigEndian.Uint32(frame[0:])
+		if pgno == 0 {
+			TraceLog.Printf("[buildTxFrames(%s)]: msg=page-zero offset=%d", db.name, offset)
+			return nil, 0, 0, 0, 0, errNoTransaction
+		}
+
 		// Verify checksum
 		fchksum1 := binary.BigEndian.Uint32(frame[16:])
 		fchksum2 := binary.BigEndian.Uint32(frame[20:])
@@ -1585,7 +1592,6 @@ func (db *DB) buildTxFrameOffsets(walFile *os.File) (_ map[uint32]int64, commit,
 		}
 
 		// Save the offset for the last version of the page to a map.
-		pgno := binary.BigEndian.Uint32(frame[0:])
 		m[pgno] = offset
 
 		// End of transaction, exit loop and return.
